@@ -20,6 +20,7 @@ RULE = ('scan on every well-formed raw-mux event sequence (2-3 keys, 2 values, e
         'seed object is unchanged; the terminator ran exactly once per lifetime; no mutable object emitted for one lifetime '
         'is (by identity) the user seed or an object emitted for another lifetime. Non-trivial = two keys live at once or a '
         'key index reused, with at least two items.')
+DEEP_PROBES = ('lifetimes of 200 and 2x130 items for every derived operator; sparse key indices 3 / 12; values {-1, 0}; a float accumulator through 0.0 and -0.0')
 ASSUMPTIONS = ['accumulators are pure apart from mutating their own accumulator argument, and return the seed type',
                'depth / number of keys / value alphabet beyond the bounds are not covered']
 LEVEL_TEXT = ('Bounded-exhaustive model checking of scan_mux / scan_obs and the operators built on them over every '
